@@ -25,7 +25,7 @@ import (
 
 const dirMaxFields = 50 // jitdec._MAX_FIELDS
 
-var dirLibAtoms = []string{"MV", "MP", "TV", "TP", "Rec", "Tree", "EmbOuter", "DirSJ", "DirST", "DirVJ", "DirVT", "DirIU", "DirIT", "DirIM"}
+var dirLibAtoms = []string{"MV", "MP", "TV", "TP", "Rec", "Tree", "EmbOuter", "DirSJ", "DirST", "DirVJ", "DirVT", "DirIU", "DirIT", "DirIM", "DirRef"}
 
 var dirKeyTypes = []string{"str", "str", "str", "num", "i8", "i16", "i32", "i64", "int", "u8", "u16", "u32", "u64", "uint", "uptr", "f32", "f64",
 	"bool", "any", "(lib TV)", "(ptr (lib TV))", "(lib DirST)", "(lib DirVT)", "(ptr (lib DirVT))", "(lib DirIT)", "(lib DirIM)", "(arr 2 i8)",
@@ -177,7 +177,7 @@ func dirPtrChain(g *Gen, n int, leaf *sx) *sx {
 }
 
 // the sub-universe of the compiler-correctness theorem
-var dirSubScalars = []string{"bool", "i8", "i16", "i32", "i64", "int", "u8", "u16", "u32", "u64", "uint", "uptr", "str"}
+var dirSubScalars = []string{"any", "f32", "f64", "bool", "i8", "i16", "i32", "i64", "int", "u8", "u16", "u32", "u64", "uint", "uptr", "str"}
 
 func dirSubType(g *Gen, depth int) *sx {
 	sc := func() *sx { return atomT(dirSubScalars[g.R.Intn(len(dirSubScalars))]) }
@@ -219,11 +219,15 @@ func dirSubType(g *Gen, depth int) *sx {
 	}
 }
 
-// the machine model beyond the theorem: string-keyed maps, floats, json.Number, `,string`
+// the machine model beyond the theorem: string- and integer-keyed maps, json.Number, `,string`
 func dirRunType(g *Gen, depth int) *sx {
 	switch g.R.Intn(10) {
 	case 0:
-		return listT("map", atomT("str"), dirSubType(g, depth-1))
+		k := "str"
+		if g.R.Intn(2) == 0 {
+			k = []string{"i8", "i16", "i32", "i64", "int", "u8", "u16", "u32", "u64", "uint"}[g.R.Intn(10)]
+		}
+		return listT("map", atomT(k), dirSubType(g, depth-1))
 	case 1:
 		st := listT("st")
 		for i, a := range []string{"i8", "u16", "bool", "str", "f64", "num", "i64"} {
@@ -294,13 +298,17 @@ var dirEdgeTypes = []string{
 	"(st (f A - (lib Rec)) (f B - (lib Tree)) (f C - (ptr (lib Rec))))", "(st (f A - (st (f B - (st (f C - (lib Tree)))))))",
 	"(st (f A - (ptr (lib Tree))) (f B - (lib Tree)) (f C - (sl (lib Tree))))", "(sl (lib EmbOuter))", "(ptr (lib EmbOuter))",
 	"(st (f A - (lib MV)) (f B - (ptr (lib MV))) (f C - (lib TV)) (f D - raw) (f E - (ptr raw)) (f F - num) (f G - (ptr num)))",
+	// a named pointer type (finding C09-jitdec-namedptr-inline-depth: in place up to MaxInlineDepth, `recurse MV` = the method beyond)
+	"(lib DirRef)", "(ptr (lib DirRef))", "(ptr (ptr (lib DirRef)))", "(sl (lib DirRef))", "(map str (lib DirRef))", "(arr 2 (lib DirRef))",
+	"(st (f A - (lib DirRef)) (f B - (lib MV)) (f C - (lib DirRef)))", "(st (f A - (st (f B - (st (f C - (lib DirRef)))))))",
+	"(st (f A - (st (f B - (st (f Items - (sl (lib DirRef))))))))", "(st (f A 2c737472696e67 (lib DirRef)))", "(map (lib DirRef) i8)",
 }
 
 func init() {
 	registerGen("dir.edge", func(g *Gen) {
 		for _, t := range dirEdgeTypes {
 			tn := parseSx(t)
-			for _, d := range []string{"0", "1", "2", "5"} {
+			for _, d := range []string{"0", "1", "2", "5", "8"} {
 				g.Emit("dirdis", tn.String(), d)
 			}
 		}
